@@ -139,12 +139,84 @@ Definition stack_data (gs : list gfile) (order : list nat) (sh : list nat) : arr
       end
     else None).
 
-(** dtype of the output: the first (sorted) file's, except for the "fslview hack":
-    [if stack_dtype == np.uint16 and bits_stored < 16: stack_dtype = np.int16]
-    ([bits_stored = get_meta('BitsStored', default=16)]) *)
+(** ** dtype of the output (fix 63f686b)
+    [stack_dtype] = numpy result_type of the set of the dtypes of ALL files, [bits_stored = max(BitsStored of every file,
+    default 16)], then the "fslview hack": [if stack_dtype == np.uint16 and bits_stored < 16: np.int16].
+
+    The dtype lattice that is modelled: int8, uint8, int16, uint16, int32, float32, float64 with numpy's
+    array-dtype promotion (closed under it; commutative, associative, idempotent - checked exhaustively in
+    ProofsGeomInv - so the iteration order of the Python set does not matter).  Any other dtype name is
+    outside the model ([Err ECrash]). *)
+Inductive dt := DInt8 | DUint8 | DInt16 | DUint16 | DInt32 | DFloat32 | DFloat64.
+
+Definition dt_eqb (a b : dt) : bool :=
+  match a, b with
+  | DInt8, DInt8 | DUint8, DUint8 | DInt16, DInt16 | DUint16, DUint16 | DInt32, DInt32
+  | DFloat32, DFloat32 | DFloat64, DFloat64 => true
+  | _, _ => false
+  end.
+
+Definition dt_name (d : dt) : str :=
+  match d with
+  | DInt8 => [105; 110; 116; 56]
+  | DUint8 => [117; 105; 110; 116; 56]
+  | DInt16 => [105; 110; 116; 49; 54]
+  | DUint16 => [117; 105; 110; 116; 49; 54]
+  | DInt32 => [105; 110; 116; 51; 50]
+  | DFloat32 => [102; 108; 111; 97; 116; 51; 50]
+  | DFloat64 => [102; 108; 111; 97; 116; 54; 52]
+  end%N.
+
+Definition all_dt : list dt := [DInt8; DUint8; DInt16; DUint16; DInt32; DFloat32; DFloat64].
+
+Definition dt_of_name (s : str) : option dt := find (fun d => str_eqb (dt_name d) s) all_dt.
+
+(** (is float, is signed, bits) *)
+Definition dt_kind (d : dt) : bool * bool * nat :=
+  match d with
+  | DInt8 => (false, true, 8) | DUint8 => (false, false, 8)
+  | DInt16 => (false, true, 16) | DUint16 => (false, false, 16)
+  | DInt32 => (false, true, 32)
+  | DFloat32 => (true, true, 32) | DFloat64 => (true, true, 64)
+  end.
+
+Definition dt_int (signed : bool) (bits : nat) : dt :=
+  if bits <=? 8 then (if signed then DInt8 else DUint8)
+  else if bits <=? 16 then (if signed then DInt16 else DUint16)
+  else DInt32.
+Definition dt_float (bits : nat) : dt := if bits <=? 32 then DFloat32 else DFloat64.
+
+(** numpy promotion of two array dtypes of the lattice:
+    same kind -> the wider one; unsigned with signed -> a signed type that holds both (twice the unsigned width
+    unless the signed one is already wider); integer with float -> a float whose mantissa holds the integer
+    (<= 16 bits: float32, otherwise float64), at least as wide as the float *)
+Definition promote (a b : dt) : dt :=
+  let '(fa, sa, ba) := dt_kind a in
+  let '(fb, sb, bb) := dt_kind b in
+  match fa, fb with
+  | true, true => dt_float (Nat.max ba bb)
+  | true, false => dt_float (Nat.max ba (if bb <=? 16 then 32 else 64))
+  | false, true => dt_float (Nat.max bb (if ba <=? 16 then 32 else 64))
+  | false, false =>
+      if Bool.eqb sa sb then dt_int sa (Nat.max ba bb)
+      else
+        let ub := if sa then bb else ba in       (* width of the unsigned one *)
+        let ib := if sa then ba else bb in       (* width of the signed one *)
+        dt_int true (if ub <? ib then ib else 2 * ub)
+  end.
+
 Definition bits_stored_of (g : gfile) : nat := match g_bits_stored g with Some b => b | None => bits_stored_default end.
-Definition out_dtype (g0 : gfile) : str :=
-  if g_unsigned16 g0 && (bits_stored_of g0 <? hack_bits) then int16_str else g_dtype g0.
+
+(** [files]: the files of the stack (any order) *)
+Definition out_dtype (files : list gfile) : res str :=
+  match mapM (fun g => match dt_of_name (g_dtype g) with Some d => Ok d | None => Err ECrash end) files with
+  | Err e => Err e
+  | Ok [] => Err ECrash                                   (* np.result_type() without arguments: unreachable *)
+  | Ok (d :: ds) =>
+      let j := fold_left promote ds d in
+      let bits := fold_left Nat.max (map bits_stored_of files) 0 in
+      Ok (if str_eqb (dt_name j) uint16_str && (bits <? hack_bits) then int16_str else dt_name j)
+  end.
 
 (* ------------------------------------------------------------------------------------------ *)
 (** * get_affine *)
@@ -177,7 +249,8 @@ Definition stack_affine (gs : list gfile) (i0 : nat) (col : option (nat * nat)) 
 Record geom_out := mkgeom {
   go_nifti : nifti_out;       (* the sorter's view of the call ([o_order] = file order AFTER the in-place reversal) *)
   go_ord0 : list nat;         (* file order used to fill the array (before the reversal) *)
-  go_first : gfile;           (* first sorted file: source of dtype and affine *)
+  go_first : gfile;           (* first sorted file: source of the affine *)
+  go_files : list gfile;      (* the files in sorted order (before the reversal) *)
   go_data0 : arr;             (* self.data *)
   go_aff0 : mat;              (* self.affine *)
   go_data : arr;              (* data of the NIfTI image *)
@@ -216,20 +289,25 @@ Definition conv_geom (gs : list gfile) (st : state) (code : str) (embed : bool) 
       match ra with
       | Err e => (st2, Err e)
       | Ok (i0, col) =>
-          match glookup gs i0, stack_affine gs i0 col with
-          | Some g0, Ok A0 =>
-              let d0 := stack_data gs ord0 sh in
-              match reorient d0 A0 code with
+          match glookup gs i0, stack_affine gs i0 col,
+                mapM (fun id => match glookup gs id with Some g => Ok g | None => Err ECrash end) ord0 with
+          | Some g0, Ok A0, Ok gl =>
+              match out_dtype gl with
               | Err e => (st2, Err e)
-              | Ok (d, A, T, o) =>
-                  let '(st3, rn) := to_nifti st (vorder_of (files_info st2) code o) embed in
-                  match rn with
-                  | Err e => (st3, Err e)
-                  | Ok n =>
-                      (st3, Ok (mkgeom n ord0 g0 d0 A0 d (out_dtype g0) A T o (ornt_perm o) (ornt_flips o)))
+              | Ok dtype =>
+                  let d0 := stack_data gs ord0 sh in
+                  match reorient d0 A0 code with
+                  | Err e => (st2, Err e)
+                  | Ok (d, A, T, o) =>
+                      let '(st3, rn) := to_nifti st (vorder_of (files_info st2) code o) embed in
+                      match rn with
+                      | Err e => (st3, Err e)
+                      | Ok n =>
+                          (st3, Ok (mkgeom n ord0 g0 gl d0 A0 d dtype A T o (ornt_perm o) (ornt_flips o)))
+                      end
                   end
               end
-          | _, _ => (st2, Err ECrash)          (* a file without its [gfile]: outside the model *)
+          | _, _, _ => (st2, Err ECrash)          (* a file without its [gfile]: outside the model *)
           end
       end
   end.
